@@ -28,15 +28,29 @@ inductive PR where
   | err
   | rule (r : Option Rule)
 
-/-- `none` = malformed; `some none` = `N` (no ACL stored) -/
+/-- `|theta| + Σ |w| < 2^53`: every float64 sum the code can form over the rule is exact -/
+def inExactRange (th : Int) (ms : List (Name × Int)) : Bool :=
+  th.natAbs + (ms.map (fun m => m.2.natAbs)).foldl (· + ·) 0 < 2 ^ 53
+
+def parseThr (th ms : String) : Option (Option Rule) := do
+  let th ← th.toInt?
+  let ms ← if ms == "" then some [] else (ms.splitOn ",").mapM parseMember
+  if inExactRange th ms then pure (some (Rule.thr ms th)) else none
+
+/-- `none` = malformed; `some none` = `N` (no ACL stored).  `T:` = weights in quarters; `Q<e>:` = in units of `2^-e` (-900 ≤ e ≤ 900).  The unit does not matter to the
+exact comparison `theta ≤ Σ w`, so both give the same `Rule.thr` over integers. -/
 def parseRule0 (s : String) : Option (Option Rule) :=
   if s == "N" then some none
   else if s.startsWith "T:" then
     match ((s.drop 2).toString).splitOn ":" with
-    | [th, ms] => do
-      let th ← th.toInt?
-      let ms ← if ms == "" then some [] else (ms.splitOn ",").mapM parseMember
-      pure (some (Rule.thr ms th))
+    | [th, ms] => parseThr th ms
+    | _ => none
+  else if s.startsWith "Q" then
+    match ((s.drop 1).toString).splitOn ":" with
+    | [e, th, ms] =>
+      match e.toInt? with
+      | some ei => if toString ei == e && decide (-900 ≤ ei) && decide (ei ≤ 900) then parseThr th ms else none
+      | none => none
     | _ => none
   else if s.startsWith "S:" then
     let body := (s.drop 2).toString
@@ -337,7 +351,7 @@ def vtx (envS mruleS ownersS pendS faultS iniS isigS usS usigS inputsS actS : St
     | _ => false
   pure (ar (verifyTx ch tx && !declaredReadBroken))
 
-def step (_ : Unit) (line : String) : Unit × String :=
+def step1 (_ : Unit) (line : String) : Unit × String :=
   match line.splitOn "|" with
   | ["ida", root, env, us] =>
     match parseName root, parseEnv env, parseURIs us with
@@ -377,6 +391,22 @@ def step (_ : Unit) (line : String) : Unit × String :=
   | ["vtx", env, mrule, owners, pend, fault, ini, isig, us, usig, inputs, act] =>
     ((), (vtx env mrule owners pend fault ini isig us usig inputs act).getD "bad-op")
   | _ => ((), "bad-op")
+
+/-- `conc <g> <iters> :: <ida|cmp line> :: …`: many goroutines evaluate the listed cases at the same time.  An
+evaluation has no effect, so every concurrent answer must be the sequential one: the answer line is the list of the
+sequential answers (the harness compares every concurrent answer with it). -/
+def step (_ : Unit) (line : String) : Unit × String :=
+  if line.startsWith "conc " then
+    match line.splitOn " :: " with
+    | hdr :: subs =>
+      match words hdr with
+      | ["conc", g, it] =>
+        if g.toNat?.isNone || it.toNat?.isNone || subs.isEmpty then ((), "bad-op")
+        else if subs.any (fun l => !(l.startsWith "ida|" || l.startsWith "cmp|")) then ((), "bad-op")
+        else ((), " ".intercalate (subs.map (fun l => (step1 () l).2)))
+      | _ => ((), "bad-op")
+    | [] => ((), "bad-op")
+  else step1 () line
 
 def run : IO Unit := loop step ()
 
